@@ -76,6 +76,19 @@ func (e *Env) recordingHandler(id string, readMode int) callbacks.Handler {
 		}
 		return fmt.Sprintf("<%T>", v)
 	}
+	if readMode == 3 {
+		// a handler that only cares about value callbacks: it declines the stream timings
+		// (callbacks.TimingChecker), so no stream copy may be made for it
+		return callbacks.NewHandlerBuilder().
+			OnStartFn(func(ctx context.Context, info *callbacks.RunInfo, in callbacks.CallbackInput) context.Context {
+				rec(ctx, info, "start", canonAny(in))
+				return ctx
+			}).
+			OnEndFn(func(ctx context.Context, info *callbacks.RunInfo, out callbacks.CallbackOutput) context.Context {
+				rec(ctx, info, "end", canonAny(out))
+				return ctx
+			}).Build()
+	}
 	return callbacks.NewHandlerBuilder().
 		OnStartFn(func(ctx context.Context, info *callbacks.RunInfo, in callbacks.CallbackInput) context.Context {
 			rec(ctx, info, "start", canonAny(in))
@@ -97,4 +110,37 @@ func (e *Env) recordingHandler(id string, readMode int) callbacks.Handler {
 			stream(ctx, info, "end-stream", schema.StreamReaderWithConvert(out, func(c callbacks.CallbackOutput) (any, error) { return c, nil }))
 			return ctx
 		}).Build()
+}
+
+// nestingViolations: an execution unit inside a nested graph starts only while the nested
+// graph's own unit is open for the same handler (a graph reports its start before anything
+// inside it starts, also when it is resumed).
+func nestingViolations(events []CBEvent, handlers []string) []string {
+	var out []string
+	for _, h := range handlers {
+		open := map[string]int{}
+		for _, ev := range events {
+			if ev.Handler != h || len(ev.Name) < 2 || ev.Name[:2] != "n:" {
+				continue
+			}
+			if isStart(ev.Timing) {
+				if i := lastSlash(ev.Name); i > 0 && open[ev.Name[:i]] <= 0 {
+					out = append(out, fmt.Sprintf("handler %s: %s started (%s) while its enclosing graph %s has no open start", h, ev.Name, ev.Timing, ev.Name[:i]))
+				}
+				open[ev.Name]++
+			} else {
+				open[ev.Name]--
+			}
+		}
+	}
+	return out
+}
+
+func lastSlash(s string) int {
+	for i := len(s) - 1; i >= 0; i-- {
+		if s[i] == '/' {
+			return i
+		}
+	}
+	return -1
 }
